@@ -1,13 +1,13 @@
 # C02 — lazily served files and metadata equal the source tar under any access history
 PROPS["C02"] = dict(
     props_file="Properties/C02.v",
-    harnesses=[dict(cmd="serve", mod="root", model="Model.Serve", quick=70, thorough=2000, shard=7, coq_jobs=12,
+    harnesses=[dict(cmd="serve", mod="root", model="Model.Serve", quick=60, thorough=2000, shard=6, coq_jobs=12,
                     preamble="From SV Require Import Model.ChunkRead Model.TarView.",
                     require=["kind.serve", "kind.clean", "kind.attr", "cache.mem", "cache.dir1", "cache.dirdirect", "cache.dirasync",
                              "build.gzip", "build.zstd", "build.min_chunk_size", "build.prioritized", "build.workers>1",
                              "op.read", "op.prefetch", "op.evict", "op.evictall", "read.past_eof", "read.beyond_eof",
                              "read.multichunk_file", "read.chunk.hit", "read.chunk.miss", "mates.shared", "result.open_failed", "op.par"]),
-               dict(cmd="servedb", mod="cmdmod", model="Model.Serve", quick=50, thorough=1500, shard=7, coq_jobs=12,
+               dict(cmd="servedb", mod="cmdmod", model="Model.Serve", quick=40, thorough=1500, shard=5, coq_jobs=12,
                     preamble="From SV Require Import Model.ChunkRead Model.TarView.",
                     require=["kind.serve", "cache.mem", "build.min_chunk_size", "op.read", "op.prefetch", "op.grow", "read.multichunk_file",
                              "read.chunk.hit", "read.chunk.miss", "mates.shared"])],
@@ -16,7 +16,9 @@ PROPS["C02"] = dict(
          "(chunk size 1..600, min-chunk-size, gzip/zstd, prioritized files, 1..4 workers) x chunk cache (memory, directory cache with 1-entry LRU, "
          "direct, asynchronous) x histories of 4..24 ops (ReadAt at boundary-biased offsets/lengths incl. past EOF, Cache() prefetch, eviction of "
          "chosen keys / of everything), tree walked through metadata.Reader before and after the history; plus cleanEntryName and entryToAttr cases; "
-         "non-trivial = layer opened, >= 1 regular file, >= 2 reads; distinct = distinct Coq term",
+         "second harness: the same cases against the db (bbolt) metadata store, plus 'grow' ops (a further large layer opened in the same bbolt file, "
+         "which re-maps it) and, with the direct directory cache, 'pt' ops (GetPassthroughFd with merge buffer sizes around the chunk size and 0..4 workers, "
+         "merged file compared with the tar content); non-trivial = layer opened, >= 1 regular file, >= 2 reads; distinct = distinct Coq term",
     assumptions=[
         "gzip/zstd decompression from a member start yields the concatenation of the member payloads; tar and JSON (de)serialisation round-trip "
         "(exercised by the correspondence check, not modelled)",
@@ -39,7 +41,9 @@ PROPS["C02"] = dict(
                "fs/reader + cache on random tars and histories every run; an independent Go oracle compares the served tree and bytes with the input tar.",
     level_note="Models (coq/Model/ChunkRead.v, TarView.v, Serve.v) are hand-written. The tree model view_of_tar is a specification checked against the "
                "implementation by correspondence and by the Go oracle, it is not proved equal to a model of initFields (C05 models the TOC interpreters). "
-               "Only the memory metadata store is driven. The remote blob and the compressed-blob cache are not in the driven stack (C06).",
+               "Both metadata stores are driven (db: forward hardlinks in TOC order are refused by the store and excluded, C05-F12; the F11 link-count divergence is a "
+               "known finding fed to the model from the TOC order). GetPassthroughFd is driven against the Go oracle only (not modelled). "
+               "The remote blob and the compressed-blob cache are not in the driven stack (C06).",
     technique="Coq proof: loop invariant of the chunk-assembly loop under an abstract honest cache, binary-search correctness, tiling by induction on the "
               "writer loop, finite sweep (4096 modes x 7 kinds) lifted to all integers; correspondence by vm_compute on observed cases incl. per-read cache/underlying-read traces",
     trusted=["estargz.Build/appendTar, initFields, ChunkEntryForOffset, fs/reader file.ReadAt, cleanEntryName, fileInfo.Mode, entryToAttr are modelled by hand; "
@@ -47,5 +51,6 @@ PROPS["C02"] = dict(
              "hooks: estargz/verif_export_c02.go (cleanEntryName, TOC entry offsets), fs/layer/verif_export_c02.go (entryToAttr)",
              "the decompressing reader (estargz fileReader.ReadAt: member start, InnerOffset skip) is modelled as returning the chunk's true bytes and "
              "pre-reading the chunks of the same member (grouping read from the real TOC through the hook); its byte-exactness is checked by the oracle only",
-             "accepted, counted observation (not a failure): a tar mtime equal to the Unix epoch is omitted from the TOC and served as time.Time{} (year 1)"],
+             "known findings F65 (epoch mtime served as year 1) and F66 (db store: parent link count, C05-F11) are reported by the oracle with narrow signatures; "
+             "the model is faithful to both (F66 through the per-directory counts computed from the TOC order)"],
 )
